@@ -135,6 +135,8 @@ type c20Env struct {
 	uploadStatus []int
 	uploadAt     map[string]time.Time
 	rpcAt        map[string]time.Time
+	alignOn      bool
+	barrier      map[string]chan struct{}
 
 	wsClient   c20Client
 	httpClient c20Client
@@ -169,8 +171,31 @@ func (d delayRT) RoundTrip(r *http.Request) (*http.Response, error) {
 	return d.base.RoundTrip(r)
 }
 
+// align makes the upload and the RPC request of one stream id proceed at the same instant: the first to arrive
+// waits (at most 50 ms) for the second.
+func (e *c20Env) align(id string) {
+	e.evMu.Lock()
+	if !e.alignOn || id == "" {
+		e.evMu.Unlock()
+		return
+	}
+	if ch, ok := e.barrier[id]; ok {
+		delete(e.barrier, id)
+		e.evMu.Unlock()
+		close(ch)
+		return
+	}
+	ch := make(chan struct{})
+	e.barrier[id] = ch
+	e.evMu.Unlock()
+	select {
+	case <-ch:
+	case <-time.After(50 * time.Millisecond):
+	}
+}
+
 func newC20Env() (*c20Env, error) {
-	e := &c20Env{uploadAt: map[string]time.Time{}, rpcAt: map[string]time.Time{}}
+	e := &c20Env{uploadAt: map[string]time.Time{}, rpcAt: map[string]time.Time{}, barrier: map[string]chan struct{}{}}
 	readerHandler, readerOpt := httpio.ReaderParamDecoder()
 	rpc := jsonrpc.NewServer(readerOpt)
 	rpc.Register("R", ReaderAPI{})
@@ -184,6 +209,7 @@ func newC20Env() (*c20Env, error) {
 				e.evMu.Unlock()
 			}
 			r.Body = io.NopCloser(strings.NewReader(string(body)))
+			e.align(uuidRe.FindString(string(body)))
 		}
 		rpc.ServeHTTP(w, r)
 	})
@@ -198,6 +224,7 @@ func newC20Env() (*c20Env, error) {
 		e.evMu.Lock()
 		e.uploadAt[path.Base(r.URL.Path)] = time.Now()
 		e.evMu.Unlock()
+		e.align(path.Base(r.URL.Path))
 		sr := &statusRecorder{ResponseWriter: w, code: 200}
 		readerHandler(sr, r)
 		e.evMu.Lock()
@@ -238,7 +265,7 @@ type c20Call struct {
 
 type c20Case struct {
 	Transport string    `json:"transport"` // ws | http
-	Order     string    `json:"order"`     // natural | request_first | upload_first
+	Order     string    `json:"order"`     // natural | request_first | upload_first | aligned (both released at the same instant; http only)
 	Calls     []c20Call `json:"calls"`
 }
 
@@ -260,6 +287,7 @@ func (e *c20Env) run(c c20Case) *Violation {
 	defer e.mu.Unlock()
 	e.evMu.Lock()
 	e.uploadDelay, e.requestDelay = 0, 0
+	e.alignOn = c.Order == "aligned"
 	switch c.Order {
 	case "request_first":
 		e.uploadDelay = 25 * time.Millisecond
@@ -434,7 +462,7 @@ const c20Rule = "payload length from edge lengths {0,1,2,15..17,511..513,4095..4
 func TestC20(t *testing.T) {
 	rec := NewRec("C20", c20Rule)
 	defer rec.Finish(t)
-	rec.RequireClass("len_0", "len_gt_32k", "reads_past_eof", "pattern_closeafter", "pattern_closeearly", "pattern_bytewise", "order_request_first", "order_upload_first", "ncalls_3", "tr_ws", "tr_http")
+	rec.RequireClass("order_aligned", "len_0", "len_gt_32k", "reads_past_eof", "pattern_closeafter", "pattern_closeearly", "pattern_bytewise", "order_request_first", "order_upload_first", "ncalls_3", "tr_ws", "tr_http")
 	env, err := newC20Env()
 	if err != nil {
 		t.Fatalf("env: %v", err)
@@ -472,6 +500,15 @@ func TestC20(t *testing.T) {
 				}
 			}
 		}
+		// aligned arrivals: upload and request of the same stream id hit the rendezvous table at the same instant
+		for i := 0; i < scale(300, 3000); i++ {
+			c := c20Case{Transport: "http", Order: "aligned", Calls: []c20Call{{Len: 1 + i%40, Seed: uint64(i)*31 + 7, Plan: ReadPlan{Pattern: "readall"}}}}
+			if i%10 == 0 {
+				c.Calls = append(c.Calls, c20Call{Len: 3, Seed: uint64(i), Plan: ReadPlan{Pattern: "readall"}}, c20Call{Len: 5000, Seed: uint64(i) + 1, Plan: ReadPlan{Pattern: "readall"}})
+			}
+			nt, cl := c20NT(c)
+			rec.Run(t, c, nt, cl, func() *Violation { return env.runConfirm(c) })
+		}
 		if thorough() {
 			for _, n := range []int{1 << 20, 4 << 20} {
 				c := c20Case{Transport: "ws", Order: "natural", Calls: []c20Call{{Len: n, Seed: 99, Plan: ReadPlan{Pattern: "readall"}}, {Len: n / 2, Seed: 98, Plan: ReadPlan{Pattern: "chunked", Chunk: 4097}}}}
@@ -485,7 +522,7 @@ func TestC20(t *testing.T) {
 		c := c20Case{Transport: rapid.SampledFrom([]string{"ws", "http"}).Draw(rt, "transport")}
 		orders := []string{"natural", "natural", "request_first"}
 		if c.Transport == "http" {
-			orders = append(orders, "upload_first")
+			orders = append(orders, "upload_first", "aligned", "aligned")
 		}
 		c.Order = rapid.SampledFrom(orders).Draw(rt, "order")
 		n := rapid.SampledFrom([]int{1, 1, 1, 2, 3, 3, 6}).Draw(rt, "ncalls")
@@ -506,9 +543,16 @@ func TestC20(t *testing.T) {
 func (e *c20Env) runConfirm(c c20Case) *Violation {
 	v := e.run(c)
 	if v != nil && (v.Key == "upload-not-completed" || v.Key == "call-failed") {
-		if v2 := e.run(c); v2 == nil {
-			return nil
+		tries := 1
+		if c.Order == "aligned" {
+			tries = 40 // the confirming run has to hit the same narrow window again
 		}
+		for i := 0; i < tries; i++ {
+			if v2 := e.run(c); v2 != nil {
+				return v
+			}
+		}
+		return nil
 	}
 	return v
 }
